@@ -140,6 +140,7 @@ Inductive sop :=
 | ClientClose (k : N)
 | Garbage (k : N)
 | Req (k v : N)
+| Flood (k : N)            (* client k pipelines requests and never reads: its session blocks in a reply write *)
 | SetDecode
 | Stop
 | DropHandle.
@@ -150,6 +151,8 @@ Definition expand (o : sop) : list event :=
                                                    run_session selects on the command channel while it waits *)
   | ClientClose k | Garbage k => [PeerGone k; SessionEnded k]
   | Req k v => [Request k v]
+  | Flood _ => []          (* nothing the tracker or the accept loop sees: the session is still a running session
+                              (SessionTask races every reply write against its command channel) *)
   | SetDecode => [Command]
   | Stop => [Shutdown]
   | DropHandle => [HandleDropped]
